@@ -56,7 +56,7 @@ CLAIMS = {
             "of a value pool and of repr round trips",
             "All ordered pairs of a pool rich in near-collisions (same text, different formatting / run boundaries / explicit "
             "False / empty runs) and plain strs: ==, !=, reversed ==, hash, set/dict membership recorded with both terminal "
-            "strings and validated by TLC; repr is shape-checked (ast) and evaluated in a namespace of only the fmtfuncs names.",
+            "strings and validated by TLC; repr is shape-checked (ast) and evaluated in a namespace of only the fmtfuncs names; the value and its evaluated repr must have the same runs and display the same (lexed terminal strings).",
             TRUST + "Python's eval/ast for the repr expression.", "5/C19"),
     "C10": ("TLA+ column model (Width.tla: Cols / AbsWsliceCols): TLC trace validation of bounded-exhaustive real "
             "width/width_at_offset/width_aware_slice calls",
@@ -119,7 +119,7 @@ CLAIMS = {
     "C20": ("TLA+ key-decoder spec (KeyDecoder.tla/KeyTrace.tla: ModesCutAtSamePlaces, BytesNamingReturnsTheBytes, curses subset, "
             "ConfigNameNeverProduced): TLC design check on extracted tables + trace validation of real get_key vectors, streams "
             "and keymap lookups",
-            "The C03 tree and streams judged for mode consistency, both tables entry by entry, every valid configuration key "
+            "The C03 tree and streams judged for mode consistency (incl. 'named under curses naming => not bare text under curtsies naming' at every node), both tables entry by entry, every valid configuration key "
             "name checked against the names the decoder can produce.",
             TRUST + "Invalid configuration names are recorded but not judged (the statement promises nothing for them).", "5/C20"),
     "C04": ("TLA+ FSArray spec (FSArray.tla: Show/ExpectShow/MustFail, ImplAssign + ImplSetslice): TLC model-checks all assignment "
